@@ -1,5 +1,6 @@
 import Model.Jwe
 import Lemmas.Base64
+import Props.C03Registry
 /-
   C03 — JWE: round trip, and every accepted serialization authenticated its exact components.
 
